@@ -52,7 +52,7 @@ def toml_file(assign, style):
             tabs.setdefault(t, []).append((k, v))
     s = "".join("%s = %s\n" % (f(k), v) for k, v in top)
     for t, kv in tabs.items():
-        s += "[%s]\n" % t + "".join("%s = %s\n" % (f(k), v) for k, v in kv)
+        s += "[%s]\n" % f(t) + "".join("%s = %s\n" % (f(k), v) for k, v in kv)      # kebab style: also the TABLE name ([demo-gen])
     return s
 
 
